@@ -256,7 +256,7 @@ Lemma closed_handle s v f :
 Proof.
   intros Hn Hc Hw.
   unfold f_read, f_read_at, f_write, f_write_at, f_seek, f_truncate, f_stat, f_sync, f_chmod, f_chown, f_chdir,
-    f_close, f_read_dir, f_readdirnames, closed_err.
+    f_close, f_read_dir, f_readdirnames, dir_read, closed_err.
   rewrite Hc, Hw. destruct (hd_name f) eqn:En; [congruence|].
   repeat split; intros; try reflexivity.
   destruct (has (hd_mode f) OpenAppend); [reflexivity|].
@@ -442,139 +442,118 @@ Proof.
 Qed.
 
 Section DirBatches.
-  Variables (s : fsys) (v : view) (c : nat) (ch : list (str * nat)) (m : meta) (n : Z).
+  Variables (s : fsys) (v : view) (c : nat) (ch : list (str * nat)) (m : meta).
   Hypothesis Hdir : get (f_heap s) c = Some (NDir ch m).
-  Hypothesis Hn : 0 < n.
 
   Let L := dir_infos (f_heap s) ch.
-  Let LN := dir_names ch.
 
-  (* a handle in the middle of a pass over cache l: position ix *)
-  Definition mid_infos (f : handle) (ix : nat) : Prop :=
-    hd_name f <> [] /\ hd_node f = Some c /\ hd_dir_infos f = Some L /\ hd_dir_index f = ix.
+  (* the position of a handle in the listing: nothing read yet (position 0), or the listing taken and an index *)
+  Definition dir_at (f : handle) (ix : nat) : Prop :=
+    hd_name f <> [] /\ hd_node f = Some c
+    /\ ((hd_dir_infos f = None /\ ix = 0%nat) \/ (hd_dir_infos f = Some L /\ hd_dir_index f = ix)).
 
-  Lemma read_dir_mid f ix :
-    mid_infos f ix ->
-    if Nat.leb (length L) ix
-    then snd (f_read_dir s v f n) = RInfos [] (Some EG_EOF)
-    else exists f', f_read_dir s v f n = (f', RInfos (firstn (Nat.min (ix + Z.to_nat n) (length L) - ix) (skipn ix L)) None)
-                    /\ mid_infos f' (Nat.min (ix + Z.to_nat n) (length L)).
+  (* one read through the shared cursor, whatever the rendering of the batch *)
+  Lemma dir_read_at f ix n ret :
+    dir_at f ix ->
+    match dir_batch n L ix with
+    | None => snd (dir_read s v f n ret) = ret [] (Some EG_EOF) /\ dir_at (fst (dir_read s v f n ret)) ix
+    | Some (b, e) => snd (dir_read s v f n ret) = ret b None /\ dir_at (fst (dir_read s v f n ret)) e
+    end.
   Proof.
-    intros (Hnm & Hnd & Hi & Hx). unfold f_read_dir.
-    destruct (hd_name f) eqn:En; [congruence|].
-    rewrite Hnd, Hdir, Hi, Hx.
-    destruct (Z.leb_spec n 0); [lia|]. cbn [orb andb].
-    destruct (Nat.leb (length L) ix) eqn:El; cbn [snd]; [reflexivity|].
-    eexists; split; [reflexivity|].
-    unfold mid_infos; cbn [hd_name hd_node hd_dir_infos hd_dir_index]. repeat split; congruence.
+    intros (Hnm & Hnd & Hpos). unfold dir_read.
+    destruct (hd_name f) eqn:En; [congruence|]. rewrite Hnd, Hdir.
+    assert (E : (match hd_dir_infos f with Some l => l | None => dir_infos (f_heap s) ch end) = L
+                /\ (match hd_dir_infos f with Some _ => hd_dir_index f | None => 0%nat end) = ix).
+    { destruct Hpos as [[Hi ->]|[Hi Hx]]; rewrite Hi; auto. }
+    destruct E as [-> ->].
+    destruct (dir_batch n L ix) as [[b e]|]; cbn [fst snd]; (split; [reflexivity|]);
+      unfold dir_at; cbn [hd_name hd_node hd_dir_infos hd_dir_index]; repeat split; auto; congruence.
   Qed.
 
-  Lemma read_dir_loop fuel : forall f ix,
-    mid_infos f ix -> (length L - ix < fuel)%nat -> (ix <= length L)%nat ->
+  Lemma dir_batch_pos n ix : 0 < n -> (ix < length L)%nat ->
+    dir_batch n L ix = Some (firstn (Nat.min (ix + Z.to_nat n) (length L) - ix) (skipn ix L),
+                             Nat.min (ix + Z.to_nat n) (length L)).
+  Proof.
+    intros Hn Hix. unfold dir_batch.
+    destruct (Z.ltb_spec 0 n); [|lia]. destruct (Nat.leb_spec (length L) ix); [lia|]. cbn [andb].
+    destruct (Z.leb_spec n 0); [lia|]. reflexivity.
+  Qed.
+
+  Lemma dir_batch_end n ix : 0 < n -> (length L <= ix)%nat -> dir_batch n L ix = None.
+  Proof.
+    intros Hn Hix. unfold dir_batch.
+    destruct (Z.ltb_spec 0 n); [|lia]. destruct (Nat.leb_spec (length L) ix); [|lia]. reflexivity.
+  Qed.
+
+  Lemma read_dir_loop n fuel : 0 < n -> forall f ix,
+    dir_at f ix -> (length L - ix < fuel)%nat -> (ix <= length L)%nat ->
     exists bs, read_dir_all fuel s v f n = (bs, Some (RInfos [] (Some EG_EOF)))
                /\ concat bs = skipn ix L
                /\ Forall (fun b => (0 < length b)%nat /\ Z.of_nat (length b) <= n) bs.
   Proof.
-    induction fuel as [|fuel IH]; intros f ix Hmid Hfuel Hix; [lia|].
-    cbn [read_dir_all]. pose proof (read_dir_mid Hmid) as Hstep.
+    intros Hn. induction fuel as [|fuel IH]; intros f ix Hat Hfuel Hix; [lia|].
+    cbn [read_dir_all]. unfold f_read_dir.
+    pose proof (@dir_read_at f ix n (fun l e => RInfos l e) Hat) as Hstep.
     destruct (Nat.leb_spec (length L) ix) as [Hle|Hgt].
-    - destruct (f_read_dir s v f n) as [f' r]. cbn [snd] in Hstep. subst r.
+    - rewrite dir_batch_end in Hstep by auto. destruct Hstep as [Hr _].
+      destruct (dir_read s v f n _) as [f' r]. cbn [snd] in Hr. subst r.
       exists []. repeat split; auto. cbn [concat]. now rewrite skipn_all2 by lia.
-    - destruct Hstep as (f' & Heq & Hmid'). rewrite Heq.
+    - rewrite dir_batch_pos in Hstep by auto. destruct Hstep as [Hr Hat'].
+      destruct (dir_read s v f n _) as [f' r]. cbn [fst snd] in *. subst r.
       set (e := Nat.min (ix + Z.to_nat n) (length L)) in *.
-      destruct (IH f' e Hmid') as (bs & Hrun & Hcat & Hall); [lia|lia|].
-      rewrite Hrun. eexists; repeat split.
+      destruct (IH f' e Hat') as (bs & Hrun & Hcat & Hall); [lia|lia|].
+      fold (f_read_dir s v) in Hrun. rewrite Hrun. eexists; repeat split.
       + cbn [concat]. rewrite Hcat. symmetry. apply skipn_split. lia.
       + constructor; auto. rewrite firstn_length, skipn_length. lia.
   Qed.
 
   (* C02_dir_batches for ReadDir: from a freshly opened (or rewound) handle *)
-  Lemma read_dir_batches f :
-    hd_name f <> [] -> hd_node f = Some c -> hd_dir_infos f = None ->
+  Lemma read_dir_batches n f :
+    0 < n -> hd_name f <> [] -> hd_node f = Some c -> hd_dir_infos f = None ->
     exists bs, read_dir_all (S (S (length L))) s v f n = (bs, Some (RInfos [] (Some EG_EOF)))
                /\ concat bs = L
                /\ Forall (fun b => (0 < length b)%nat /\ Z.of_nat (length b) <= n) bs.
   Proof.
-    intros Hnm Hnd Hi.
-    destruct L as [|x l] eqn:EL.
-    - exists []. cbn [read_dir_all]. unfold f_read_dir.
-      destruct (hd_name f) eqn:En; [congruence|]. rewrite Hnd, Hdir, Hi.
-      destruct (Z.leb_spec n 0); [lia|]. cbn [orb andb]. fold L. rewrite EL. cbn. auto.
-    - (* the first call fills the cache and behaves as a call in the middle of a pass at index 0 *)
-      set (f0 := {| hd_node := hd_node f; hd_view := hd_view f; hd_name := hd_name f; hd_at := hd_at f;
-                    hd_mode := hd_mode f; hd_dir_infos := Some L; hd_dir_names := hd_dir_names f;
-                    hd_dir_index := 0 |}).
-      assert (Hsame : f_read_dir s v f n = f_read_dir s v f0 n).
-      { unfold f_read_dir, f0. cbn [hd_name hd_node hd_dir_infos hd_dir_index hd_view hd_at hd_mode hd_dir_names].
-        destruct (hd_name f) eqn:En; [congruence|]. rewrite Hnd, Hdir, Hi.
-        destruct (Z.leb_spec n 0); [lia|]. cbn [orb andb]. fold L. rewrite EL. reflexivity. }
-      assert (Hmid : mid_infos f0 0) by (unfold mid_infos, f0; cbn; auto).
-      destruct (@read_dir_loop (S (S (length L))) f0 0 Hmid) as (bs & Hrun & Hcat & Hall); [lia|lia|].
-      exists bs. rewrite <- EL. repeat split; auto.
-      cbn [read_dir_all] in *. now rewrite Hsame.
+    intros Hn Hnm Hnd Hi.
+    assert (Hat : dir_at f 0) by (unfold dir_at; auto).
+    destruct (@read_dir_loop n (S (S (length L))) Hn f 0%nat Hat) as (bs & Hrun & Hcat & Hall); [lia|lia|].
+    exists bs. repeat split; auto.
   Qed.
 
-  (* the same for Readdirnames *)
-  Definition mid_names (f : handle) (ix : nat) : Prop :=
-    hd_name f <> [] /\ hd_node f = Some c /\ hd_dir_names f = Some LN /\ hd_dir_index f = ix.
-
-  Lemma readdirnames_mid f ix :
-    mid_names f ix ->
-    if Nat.leb (length LN) ix
-    then snd (f_readdirnames s v f n) = RNames [] (Some EG_EOF)
-    else exists f', f_readdirnames s v f n = (f', RNames (firstn (Nat.min (ix + Z.to_nat n) (length LN) - ix) (skipn ix LN)) None)
-                    /\ mid_names f' (Nat.min (ix + Z.to_nat n) (length LN)).
-  Proof.
-    intros (Hnm & Hnd & Hi & Hx). unfold f_readdirnames.
-    destruct (hd_name f) eqn:En; [congruence|].
-    rewrite Hnd, Hdir, Hi, Hx.
-    destruct (Z.leb_spec n 0); [lia|]. cbn [orb andb].
-    destruct (Nat.leb (length LN) ix) eqn:El; cbn [snd]; [reflexivity|].
-    eexists; split; [reflexivity|].
-    unfold mid_names; cbn [hd_name hd_node hd_dir_names hd_dir_index]. repeat split; congruence.
-  Qed.
-
-  Lemma readdirnames_loop fuel : forall f ix,
-    mid_names f ix -> (length LN - ix < fuel)%nat -> (ix <= length LN)%nat ->
+  Lemma readdirnames_loop n fuel : 0 < n -> forall f ix,
+    dir_at f ix -> (length L - ix < fuel)%nat -> (ix <= length L)%nat ->
     exists bs, readdirnames_all fuel s v f n = (bs, Some (RNames [] (Some EG_EOF)))
-               /\ concat bs = skipn ix LN
+               /\ concat bs = skipn ix (map (@fi_name) L)
                /\ Forall (fun b => (0 < length b)%nat /\ Z.of_nat (length b) <= n) bs.
   Proof.
-    induction fuel as [|fuel IH]; intros f ix Hmid Hfuel Hix; [lia|].
-    cbn [readdirnames_all]. pose proof (readdirnames_mid Hmid) as Hstep.
-    destruct (Nat.leb_spec (length LN) ix) as [Hle|Hgt].
-    - destruct (f_readdirnames s v f n) as [f' r]. cbn [snd] in Hstep. subst r.
-      exists []. repeat split; auto. cbn [concat]. now rewrite skipn_all2 by lia.
-    - destruct Hstep as (f' & Heq & Hmid'). rewrite Heq.
-      set (e := Nat.min (ix + Z.to_nat n) (length LN)) in *.
-      destruct (IH f' e Hmid') as (bs & Hrun & Hcat & Hall); [lia|lia|].
-      rewrite Hrun. eexists; repeat split.
-      + cbn [concat]. rewrite Hcat. symmetry. apply skipn_split. lia.
-      + constructor; auto. rewrite firstn_length, skipn_length. lia.
+    intros Hn. induction fuel as [|fuel IH]; intros f ix Hat Hfuel Hix; [lia|].
+    cbn [readdirnames_all]. unfold f_readdirnames.
+    pose proof (@dir_read_at f ix n (fun l e => RNames (map (@fi_name) l) e) Hat) as Hstep.
+    destruct (Nat.leb_spec (length L) ix) as [Hle|Hgt].
+    - rewrite dir_batch_end in Hstep by auto. destruct Hstep as [Hr _].
+      destruct (dir_read s v f n _) as [f' r]. cbn [snd] in Hr. subst r. cbn [map].
+      exists []. repeat split; auto. cbn [concat]. now rewrite skipn_all2 by (rewrite map_length; lia).
+    - rewrite dir_batch_pos in Hstep by auto. destruct Hstep as [Hr Hat'].
+      destruct (dir_read s v f n _) as [f' r]. cbn [fst snd] in *. subst r.
+      set (e := Nat.min (ix + Z.to_nat n) (length L)) in *.
+      destruct (IH f' e Hat') as (bs & Hrun & Hcat & Hall); [lia|lia|].
+      fold (f_readdirnames s v) in Hrun. rewrite Hrun. eexists; repeat split.
+      + cbn [concat]. rewrite Hcat. rewrite <- firstn_map, <- skipn_map. symmetry.
+        replace e with (Nat.min (ix + Z.to_nat n) (length (map (@fi_name) L))) by (rewrite map_length; reflexivity).
+        apply skipn_split. rewrite map_length. lia.
+      + constructor; auto. rewrite map_length, firstn_length, skipn_length. lia.
   Qed.
 
-  Lemma readdirnames_batches f :
-    hd_name f <> [] -> hd_node f = Some c -> hd_dir_names f = None ->
-    exists bs, readdirnames_all (S (S (length LN))) s v f n = (bs, Some (RNames [] (Some EG_EOF)))
-               /\ concat bs = LN
+  Lemma readdirnames_batches n f :
+    0 < n -> hd_name f <> [] -> hd_node f = Some c -> hd_dir_infos f = None ->
+    exists bs, readdirnames_all (S (S (length L))) s v f n = (bs, Some (RNames [] (Some EG_EOF)))
+               /\ concat bs = map (@fi_name) L
                /\ Forall (fun b => (0 < length b)%nat /\ Z.of_nat (length b) <= n) bs.
   Proof.
-    intros Hnm Hnd Hi.
-    destruct LN as [|x l] eqn:EL.
-    - exists []. cbn [readdirnames_all]. unfold f_readdirnames.
-      destruct (hd_name f) eqn:En; [congruence|]. rewrite Hnd, Hdir, Hi.
-      destruct (Z.leb_spec n 0); [lia|]. cbn [orb andb]. fold LN. rewrite EL. cbn. auto.
-    - set (f0 := {| hd_node := hd_node f; hd_view := hd_view f; hd_name := hd_name f; hd_at := hd_at f;
-                    hd_mode := hd_mode f; hd_dir_infos := hd_dir_infos f; hd_dir_names := Some LN;
-                    hd_dir_index := 0 |}).
-      assert (Hsame : f_readdirnames s v f n = f_readdirnames s v f0 n).
-      { unfold f_readdirnames, f0. cbn [hd_name hd_node hd_dir_infos hd_dir_index hd_view hd_at hd_mode hd_dir_names].
-        destruct (hd_name f) eqn:En; [congruence|]. rewrite Hnd, Hdir, Hi.
-        destruct (Z.leb_spec n 0); [lia|]. cbn [orb andb]. fold LN. rewrite EL. reflexivity. }
-      assert (Hmid : mid_names f0 0) by (unfold mid_names, f0; cbn; auto).
-      destruct (@readdirnames_loop (S (S (length LN))) f0 0 Hmid) as (bs & Hrun & Hcat & Hall); [lia|lia|].
-      exists bs. rewrite <- EL. repeat split; auto.
-      cbn [readdirnames_all] in *. now rewrite Hsame.
+    intros Hn Hnm Hnd Hi.
+    assert (Hat : dir_at f 0) by (unfold dir_at; auto).
+    destruct (@readdirnames_loop n (S (S (length L))) Hn f 0%nat Hat) as (bs & Hrun & Hcat & Hall); [lia|lia|].
+    exists bs. repeat split; auto.
   Qed.
 End DirBatches.
 
@@ -1431,3 +1410,156 @@ Proof.
     split; [vm_compute; lia|]. constructor. intros slm. destruct slm; vm_compute; auto.
   - vm_compute. constructor; [|constructor]. repeat split; auto; discriminate.
 Qed.
+
+(* ======================================================================= *)
+(* Directory handles: the implementation refines the specification dir_step  *)
+(* ======================================================================= *)
+(* One handle on a directory that does not change while it is read.  The listing the specification is given
+   is the implementation's own (sorted) one. *)
+Section DirRefine.
+  Variables (s : fsys) (v : view) (c : nat) (ch : list (str * nat)) (m : meta).
+  Hypothesis Hdir : get (f_heap s) c = Some (NDir ch m).
+  Hypothesis Hlinux : win v = false.
+
+  Let L := dir_infos (f_heap s) ch.
+  Let names := map (@fi_name) L.
+
+  (* the implementation side of one operation on the handle *)
+  Definition dimpl (f : handle) (op : dop) : handle * res :=
+    match op with
+    | DReadDir n => f_read_dir s v f n
+    | DReaddirnames n => f_readdirnames s v f n
+    | DRewind => f_seek s v f 0 0
+    | DRead n => f_read s v f n
+    | DClose => f_close f
+    end.
+
+  (* the projection of its result *)
+  Definition dproj (r : res) : dres :=
+    match r with
+    | RInfos l e => D_Batch (map (@fi_name) l) (option_map fproj_err e)
+    | RNames l e => D_Batch l (option_map fproj_err e)
+    | RBytes n _ e => D_Data n (option_map fproj_err e)
+    | RInt z => D_Int z
+    | ROk => D_Ok
+    | RFail e => D_Err (fproj_err e)
+    | _ => D_Err X_Other
+    end.
+
+  Definition drel (f : handle) (d : dfd) : Prop :=
+    hd_name f <> [] /\ (d_cursor d <= length L)%nat /\
+    if d_closed d then hd_node f = None
+    else hd_node f = Some c
+         /\ ((hd_dir_infos f = None /\ d_cursor d = 0%nat) \/ (hd_dir_infos f = Some L /\ hd_dir_index f = d_cursor d)).
+
+  Lemma names_length : length names = length L.
+  Proof. unfold names. apply map_length. Qed.
+
+  Lemma skipn_names ix : skipn ix names = map (@fi_name) (skipn ix L).
+  Proof. unfold names. apply skipn_map. Qed.
+
+  Lemma batch_all ix : firstn (length L - ix) (skipn ix L) = skipn ix L.
+  Proof. apply firstn_all2. rewrite skipn_length. lia. Qed.
+
+  Lemma batch_some k ix : (ix <= length L)%nat ->
+    firstn (Nat.min (ix + k) (length L) - ix) (skipn ix L) = firstn k (skipn ix L).
+  Proof.
+    intros Hix. destruct (Nat.le_ge_cases (ix + k) (length L)) as [H|H].
+    - rewrite Nat.min_l by lia. f_equal. lia.
+    - rewrite Nat.min_r by lia. rewrite batch_all. symmetry. apply firstn_all2. rewrite skipn_length. lia.
+  Qed.
+
+  (* the two reads differ in the rendering only *)
+  Lemma dir_read_refines f d n (ret : list finfo -> option ekind -> res) :
+    (forall l e, dproj (ret l e) = D_Batch (map (@fi_name) l) (option_map fproj_err e)) ->
+    drel f d -> d_closed d = false ->
+    dproj (snd (dir_read s v f n ret)) = snd (dir_step names d (DReadDir n))
+    /\ drel (fst (dir_read s v f n ret)) (fst (dir_step names d (DReadDir n))).
+  Proof.
+    intros Hret (Hnm & Hcur & Hrel) Hcl. rewrite Hcl in Hrel. destruct Hrel as [Hnd Hpos].
+    assert (Hat : dir_at s c ch f (d_cursor d)) by (unfold dir_at; auto).
+    pose proof (@dir_read_at s v c ch m Hdir f (d_cursor d) n ret Hat) as Hstep. fold L in Hstep.
+    unfold dir_step. rewrite Hcl. rewrite skipn_names.
+    unfold dir_batch in Hstep.
+    destruct (Z.leb_spec n 0) as [Hn|Hn].
+    - (* all the remaining entries *)
+      destruct (Z.ltb_spec 0 n); [lia|]. cbn [andb] in Hstep. rewrite batch_all in Hstep.
+      destruct Hstep as [Hr (Hnm' & Hnd' & Hpos')]. rewrite Hr, Hret. cbn [fst snd option_map].
+      split; [reflexivity|]. unfold drel. cbn [d_cursor d_closed]. rewrite names_length.
+      repeat split; auto.
+    - destruct (Z.ltb_spec 0 n); [|lia].
+      destruct (Nat.leb_spec (length L) (d_cursor d)) as [Hend|Hmid]; cbn [andb] in Hstep.
+      + (* at the end: io.EOF, the position stays *)
+        destruct Hstep as [Hr (Hnm' & Hnd' & Hpos')]. rewrite Hr, Hret.
+        rewrite skipn_all2 by lia. cbn [map fst snd option_map fproj_err].
+        split; [reflexivity|]. unfold drel. rewrite Hcl. repeat split; auto.
+      + rewrite batch_some in Hstep by lia.
+        destruct Hstep as [Hr (Hnm' & Hnd' & Hpos')]. rewrite Hr, Hret.
+        destruct (skipn (d_cursor d) L) as [|x rest] eqn:Erest.
+        { apply (f_equal (@length _)) in Erest. rewrite skipn_length in Erest. cbn in Erest. lia. }
+        cbn [map]. change (fi_name x :: map (@fi_name) rest) with (map (@fi_name) (x :: rest)).
+        rewrite <- Erest. cbn [fst snd option_map]. rewrite firstn_map.
+        split; [reflexivity|]. unfold drel. cbn [d_cursor d_closed].
+        rewrite map_length, firstn_length, skipn_length.
+        replace (d_cursor d + Nat.min (Z.to_nat n) (length L - d_cursor d))%nat
+          with (Nat.min (d_cursor d + Z.to_nat n) (length L)) by lia.
+        repeat split; auto; lia.
+  Qed.
+
+  (* every operation on the handle: result and new position as the specification says *)
+  Theorem dir_refine_step f d op :
+    drel f d ->
+    dproj (snd (dimpl f op)) = snd (dir_step names d op)
+    /\ drel (fst (dimpl f op)) (fst (dir_step names d op)).
+  Proof.
+    intros HR. pose proof HR as (Hnm & Hcur & Hrel).
+    destruct (d_closed d) eqn:Hcl.
+    - (* closed: every call answers the closed-file error and nothing moves *)
+      destruct (closed_handle s v f Hnm Hrel Hlinux)
+        as (C1 & _ & _ & _ & C5 & _ & _ & _ & _ & _ & _ & C12 & C13 & C14).
+      unfold dir_step. rewrite Hcl.
+      destruct op; cbn [dimpl]; rewrite ?C1, ?C5, ?C12, ?C13, ?C14; cbn [fst snd dproj fproj_err]; auto.
+    - destruct Hrel as [Hnd Hpos].
+      destruct op as [n|n| |n|]; cbn [dimpl].
+      + apply dir_read_refines; auto.
+      + change (dir_step names d (DReaddirnames n)) with (dir_step names d (DReadDir n)).
+        apply dir_read_refines; auto.
+      + unfold f_seek, file_of, dir_step. rewrite Hcl. destruct (hd_name f) eqn:En; [congruence|].
+        rewrite Hnd, Hdir. cbn [Z.eqb andb fst snd dproj]. split; [reflexivity|].
+        unfold drel. cbn [hd_name hd_node hd_dir_infos hd_dir_index d_cursor d_closed].
+        repeat split; auto; try congruence; lia.
+      + unfold f_read, file_of, dir_step. rewrite Hcl. destruct (hd_name f) eqn:En; [congruence|].
+        rewrite Hnd, Hdir. fold (win v). rewrite Hlinux.
+        destruct (Z.leb n 0); cbn [fst snd dproj option_map fproj_err]; (split; [reflexivity|exact HR]).
+      + unfold f_close, dir_step. rewrite Hcl, Hnd. cbn [fst snd dproj]. split; [reflexivity|].
+        unfold drel. cbn [hd_name hd_node d_cursor d_closed]. auto.
+  Qed.
+
+  (* all histories of operations on the handle *)
+  Fixpoint dimpl_run (f : handle) (ops : list dop) : handle * list res :=
+    match ops with
+    | [] => (f, [])
+    | op :: ops' =>
+        let '(f1, r) := dimpl f op in
+        let '(f2, rs) := dimpl_run f1 ops' in
+        (f2, r :: rs)
+    end.
+
+  Theorem dir_refine_history : forall ops f d,
+    drel f d ->
+    map dproj (snd (dimpl_run f ops)) = snd (dir_run names d ops)
+    /\ drel (fst (dimpl_run f ops)) (fst (dir_run names d ops)).
+  Proof.
+    induction ops as [|op ops IH]; intros f d HR; cbn [dimpl_run dir_run map]; [cbn; auto|].
+    destruct (dir_refine_step f d op HR) as [Hres HR'].
+    destruct (dimpl f op) as [f1 r]. destruct (dir_step names d op) as [d1 r']. cbn [fst snd] in *.
+    destruct (IH f1 d1 HR') as [Hrs HR2].
+    destruct (dimpl_run f1 ops) as [f2 rs]. destruct (dir_run names d1 ops) as [d2 rs']. cbn [fst snd map] in *.
+    split; [congruence|assumption].
+  Qed.
+
+  (* a freshly opened handle is in the relation *)
+  Lemma drel_fresh f : hd_name f <> [] -> hd_node f = Some c -> hd_dir_infos f = None ->
+    drel f {| d_cursor := 0; d_closed := false |}.
+  Proof. intros. unfold drel. cbn [d_cursor d_closed]. repeat split; auto. lia. Qed.
+End DirRefine.
